@@ -11,6 +11,12 @@ import (
 
 //verif:guarded InternalListener mu closed
 
+// C16 "mutexes around every shared map": every method of these types (and every
+// function literal inside them), whether or not it has a contract of its own,
+// is swept for accesses to the guarded fields without the lock.
+//
+//verif:sweep-type InternalListener props=C16 kinds=lock
+
 // Monitor invariant: the listener's queue is closed exactly when it is marked closed.
 //
 //verif:invariant InternalListener mu
@@ -87,3 +93,8 @@ func verif_HTTPAuthMiddleware_handler(w http.ResponseWriter, r *http.Request) {
 		verif.Ensures(verif.Called("net/http.Error"), "refusal_is_a_challenge")
 	}
 }
+
+// ---------------------------------------------------------------- C16: the fake UDP connection of the UDP listener
+
+//verif:guarded FakeUDPConn mu closeFlag lastActive
+//verif:sweep-type FakeUDPConn props=C16 kinds=lock
